@@ -316,9 +316,17 @@ fn general_case(ctx: &Ctx, env: &RealEnv, dir: &std::path::Path, case: u64, seed
     let depfiles_only = ctx.prop == "C15";
     let prop: &str = if depfiles_only { "C09" } else { &ctx.prop };
     let mut rng = Rng::new(seed);
-    let opts = real_opts(prop, &mut rng);
+    let mut opts = real_opts(prop, &mut rng);
+    if prop == "C13" {
+        opts.defaults = rng.chance(1, 2);
+    }
     let proj = gen_project(&mut rng, &opts);
     let mut w = new_world(env, dir, proj, &mut rng);
+    if prop == "C13" {
+        // every path of the manifest in a spelling of its own, `default` targets included
+        w.ropts.spell_seed = rng.next() | 1;
+        w.write_manifest();
+    }
     if depfiles_only {
         for s in w.proj.steps.iter_mut() {
             if s.msvc && s.depfile.is_none() {
